@@ -228,7 +228,8 @@ func runC07(c *Ctx, idx int) {
 			c.Count("pairs.evolved", 1)
 		} else {
 			ra, rb, pattern = genSyntheticPair(r)
-			ga, gb = genomeFromRecs(1, ra), genomeFromRecs(2, rb)
+			// the genome id is no part of the distance: every fourth pair carries equal ids
+			ga, gb = genomeFromRecs(1, ra), genomeFromRecs(pick(r, 2, 2, 2, 1), rb)
 			c.Count("pairs.synthetic", 1)
 			c.Count("pattern."+pattern, 1)
 		}
